@@ -519,7 +519,7 @@ class PointJacobi(object):
             if other % 2:
                 if other % 4 >= 2:
                     other = (other + 1) // 2
-                    X3, Y3, Z3 = _add(X3, Y3, Z3, X2, -Y2, 1, p)
+                    X3, Y3, Z3 = _add(X3, Y3, Z3, X2, -Y2 % p, 1, p)
                 else:
                     other = (other - 1) // 2
                     X3, Y3, Z3 = _add(X3, Y3, Z3, X2, Y2, 1, p)
@@ -563,6 +563,7 @@ class PointJacobi(object):
         X2, Y2, _ = self.__coords
         X3, Y3, Z3 = 0, 0, 1
         p, a = self.__curve.p(), self.__curve.a()
+        mY2 = -Y2 % p
         _double = self._double
         _add = self._add
         # since adding points when at least one of them is scaled
@@ -570,7 +571,7 @@ class PointJacobi(object):
         for i in reversed(self._naf(other)):
             X3, Y3, Z3 = _double(X3, Y3, Z3, p, a)
             if i < 0:
-                X3, Y3, Z3 = _add(X3, Y3, Z3, X2, -Y2, 1, p)
+                X3, Y3, Z3 = _add(X3, Y3, Z3, X2, mY2, 1, p)
             elif i > 0:
                 X3, Y3, Z3 = _add(X3, Y3, Z3, X2, Y2, 1, p)
 
@@ -612,6 +613,7 @@ class PointJacobi(object):
         X1, Y1, Z1 = self.__coords
         other.scale()
         X2, Y2, Z2 = other.__coords
+        mY1, mY2 = -Y1 % p, -Y2 % p
 
         _double = self._double
         _add = self._add
@@ -620,9 +622,9 @@ class PointJacobi(object):
         # so with 2 points, we have 9 combinations:
         # 0, -A, +A, -B, -A-B, +A-B, +B, -A+B, +A+B
         # so we need 4 combined points:
-        mAmB_X, mAmB_Y, mAmB_Z = _add(X1, -Y1, Z1, X2, -Y2, Z2, p)
-        pAmB_X, pAmB_Y, pAmB_Z = _add(X1, Y1, Z1, X2, -Y2, Z2, p)
-        mApB_X, mApB_Y, mApB_Z = _add(X1, -Y1, Z1, X2, Y2, Z2, p)
+        mAmB_X, mAmB_Y, mAmB_Z = _add(X1, mY1, Z1, X2, mY2, Z2, p)
+        pAmB_X, pAmB_Y, pAmB_Z = _add(X1, Y1, Z1, X2, mY2, Z2, p)
+        mApB_X, mApB_Y, mApB_Z = _add(X1, mY1, Z1, X2, Y2, Z2, p)
         pApB_X, pApB_Y, pApB_Z = _add(X1, Y1, Z1, X2, Y2, Z2, p)
         # when the self and other sum to infinity, we need to add them
         # one by one to get correct result but as that's very unlikely to
@@ -650,13 +652,13 @@ class PointJacobi(object):
                 if B == 0:
                     pass
                 elif B < 0:
-                    X3, Y3, Z3 = _add(X3, Y3, Z3, X2, -Y2, Z2, p)
+                    X3, Y3, Z3 = _add(X3, Y3, Z3, X2, mY2, Z2, p)
                 else:
                     assert B > 0
                     X3, Y3, Z3 = _add(X3, Y3, Z3, X2, Y2, Z2, p)
             elif A < 0:
                 if B == 0:
-                    X3, Y3, Z3 = _add(X3, Y3, Z3, X1, -Y1, Z1, p)
+                    X3, Y3, Z3 = _add(X3, Y3, Z3, X1, mY1, Z1, p)
                 elif B < 0:
                     X3, Y3, Z3 = _add(X3, Y3, Z3, mAmB_X, mAmB_Y, mAmB_Z, p)
                 else:
@@ -680,7 +682,9 @@ class PointJacobi(object):
     def __neg__(self):
         """Return negated point."""
         x, y, z = self.__coords
-        return PointJacobi(self.__curve, x, -y, z, self.__order)
+        return PointJacobi(
+            self.__curve, x, -y % self.__curve.p(), z, self.__order
+        )
 
 
 class Point(object):
